@@ -4,8 +4,8 @@
  (2) patch + demo: the workspace builds, the ORIGINAL tests all pass, and at least one demo test fails.
 Prints a JSON summary. The worktree /tmp/seedconfirm and its target dir are reused between calls and can be removed with --clean."""
 import json, os, re, subprocess, sys
-WT = "/tmp/seedconfirm"
-TGT = "/tmp/seedconfirm-target"
+WT = os.environ.get("SEEDCONFIRM_DIR", "/tmp/seedconfirm")
+TGT = WT + "-target"
 def sh(cmd, **kw):
     return subprocess.run(cmd, text=True, capture_output=True, **kw)
 def tests(extra_env=None):
